@@ -128,6 +128,9 @@ def run(ctx):
                     ctx.fail(f'xml_of raised {type(e).__name__}: {e}', desc, fingerprint=['xml-raise'])
                     continue
                 cases.append(('xml', 'xml ' + X.enc_batch(batch), 'ok ' + X.canon(root), desc))
+                if not (it % 5 in (1, 3)):
+                    # the file as written, character by character (Print/XmlText.lean)
+                    cases.append(('xml_text', 'xml_text ' + X.enc_batch(batch), 'ok ' + enc_str(text), desc))
                 path = os.path.join(tmpdir, 'a.xml')
                 with open(path, 'w', encoding='utf-8') as f:
                     f.write(text)
@@ -158,6 +161,10 @@ def run(ctx):
                 ctx.fail(f'to_jigg_xml raised {type(e).__name__}: {e}', desc, fingerprint=['jigg-raise'])
                 continue
             cases.append(('jigg', f'jigg {1 if lang == "ja" else 0} ' + X.enc_batch(batch), 'ok ' + X.canon(root), desc))
+            if all(st.score * 64 == int(st.score * 64) for sent in batch for st in sent):
+                enc_k = f'{len(batch)} ' + ' '.join(f'{len(sent)} ' + ' '.join(str(int(st.score * 64)) + ' ' + T.enc_tree(st.tree) for st in sent)
+                                                  for sent in batch)
+                cases.append(('jigg_text', f'jigg_text {1 if lang == "ja" else 0} {enc_k}', 'ok ' + enc_str(text), desc))
             why = X.jigg_wellformed(root, batch, lang)
             if why:
                 ctx.fail('Jigg XML is not self-contained: ' + why, desc, fingerprint=['jigg-wf', why.split(':')[0]])
